@@ -269,9 +269,11 @@ def run(ctx):
             ctx.report({"program": r["text"], "rejected_with": r["exc"]}, None, what="call of a bundled sub-routine rejected: %s (%s)" % (r["text"], r["exc"]))
     ctx.sample({"sub_routine_program": sspecs[0].text, "status": sres[0]["status"], "states": sres[0].get("n_states")})
     nat = native.validate_space(ctx, [s for s in sspecs if "trap" not in s.stmts], 256, env, extra_slots=EXTRA)
+    mcov = routine_models(ctx)
     return ctx.finish(
         dict(
             {k: v for k, v in cov.items()},
+            **mcov,
             evaluations=cov["states_compared"] + cov["ub_skipped"] + scov["states_compared"],
             distinct_nontrivial=cov["parts_agree"] + cov["parts_disagree"],
             rule="every accepted part of the bundled corpus (2181 definitions; rejected ones are compared with the committed acceptance baseline) compiled from a fresh state, "
@@ -298,6 +300,14 @@ def run(ctx):
 
 def replay(ctx, path):
     case = json.load(open(path))
+    if case.get("kind") == "routine-model":
+        _JOB.update(env=prog.Env(drive.get_compiler("stmt")), budget=32)
+        name, n, bad = _model_job(case["routine"])
+        print("bundled sub-routine %s on %d states: %s" % (name, n, "; ".join("%s: %s" % (b[0], b[1]) for b in bad) or "agrees with its architectural model"))
+        if bad:
+            print("VIOLATION property=%s replay=%s" % (ctx.pid, path))
+            return 1
+        return 0
     if "part" not in case:
         return vcheck.replay(ctx, path, extra={"extra_slots": EXTRA})
     name, pi = case["part"].split("#")
@@ -314,3 +324,148 @@ def replay(ctx, path):
         print("VIOLATION property=%s replay=%s" % (ctx.pid, path))
         return 1
     return 0
+
+
+# --------------------------------------------------------------------------------------
+# the bundled sub-routines against architectural models written from the QEMU helpers they stand for
+# (the C text of a bundled routine is itself part of what is shipped: the comparison of its compiled body with its own C
+# text cannot see a slip in that text)
+
+M32 = 0xFFFFFFFF
+M64 = 0xFFFFFFFFFFFFFFFF
+
+
+def _bitrev(x, n):
+    return int(format(x & ((1 << n) - 1), "0%db" % n)[::-1], 2)
+
+
+def _s32(v):
+    v &= M32
+    return v - (1 << 32) if v >> 31 else v
+
+
+def _m_conv_round(a, n):
+    a = _s32(a)
+    if n == 0:
+        val = a
+    elif (a & ((1 << (n - 1)) - 1)) == 0:
+        val = a + ((((1 << n) & a) & M32) >> 1)
+    else:
+        val = a + (1 << (n - 1))
+    return _s32(val >> n) & M32
+
+
+def _m_fcirc_add(rx, offset, m, cs):
+    """-> (returned pointer, new Rx): QEMU's fcirc_add / fHIDE helper for circular addressing"""
+    k = (m >> 24) & 0xF
+    length = m & 0x1FFFF
+    new_ptr = (rx + offset) & M32
+    if k == 0 and length >= 4:
+        start = cs & M32
+        end = (start + length) & M32
+    else:
+        mask = (1 << (k + 2)) - 1
+        start = rx & ~mask & M32
+        end = start | length
+    if new_ptr >= end:
+        new_ptr = (new_ptr - length) & M32
+    elif new_ptr < start:
+        new_ptr = (new_ptr + length) & M32
+    return new_ptr, new_ptr
+
+
+def _bits(n):
+    """values that exercise every bit and every pair of neighbouring fields of an n-bit word"""
+    vals = {0, 1, 2, 3, (1 << n) - 1, (1 << n) - 2, 1 << (n - 1), (1 << (n - 1)) - 1, 0x12345678 & ((1 << n) - 1), 0x0F0F0F0F0F0F0F0F & ((1 << n) - 1), 0x8421842184218421 & ((1 << n) - 1)}
+    for i in range(n):
+        vals.add(1 << i)
+        vals.add(((1 << n) - 1) ^ (1 << i))
+        vals.add((1 << i) - 1)
+        vals.add(((1 << n) - 1) ^ ((1 << i) - 1))
+        vals.add((1 << i) | 1)
+    return sorted(vals)
+
+
+ROUTINE_MODELS = {
+    "clz32": ("uint32_t", 32, lambda t: 32 - (t & M32).bit_length()),
+    "clz64": ("uint64_t", 64, lambda t: 64 - (t & M64).bit_length()),
+    "clo32": ("uint32_t", 32, lambda t: 32 - ((~t) & M32).bit_length()),
+    "clo64": ("uint64_t", 64, lambda t: 64 - ((~t) & M64).bit_length()),
+    "revbit16": ("uint16_t", 16, lambda t: _bitrev(t, 16)),
+    "revbit32": ("uint32_t", 32, lambda t: _bitrev(t, 32)),
+    "revbit64": ("uint64_t", 64, lambda t: _bitrev(t, 64)),
+    "fbrev": ("uint32_t", 32, lambda a: (a & 0xFFFF0000) | _bitrev(a & 0xFFFF, 16)),
+}
+
+
+def _model_job(item):
+    """One routine: run its C text (the reference interpreter, no deviation) on the model's domain."""
+    name = item
+    comp = drive.get_compiler("stmt")
+    env = _JOB["env"]
+    P = prog.ProgSpec
+    bad = []
+    n = 0
+    if name in ROUTINE_MODELS:
+        T, w, f = ROUTINE_MODELS[name]
+        spec = P([(T, "a", "input"), ("uint64_t", "r", "local")], "r = %s(a);" % name, ["r"])
+        cases = [({"in:a": v}, f(v)) for v in _bits(w)]
+    elif name == "conv_round":
+        spec = P([("int32_t", "a", "input"), ("int32_t", "b", "input"), ("uint64_t", "r", "local")], "r = (uint32_t)conv_round(a, b);", ["r"])
+        cases = [({"in:a": a, "in:b": k}, _m_conv_round(a, k)) for a in _bits(32)[::3] + [5, 6, 7, 0xFFFFFFF9, 0xFFFFFFFA, 0x7FFFFFFF, 0x80000000] for k in (0, 1, 2, 3, 4, 8, 15, 16, 30)]
+    elif name == "fcirc_add":
+        spec = P([("int32_t", "a", "input"), ("int32_t", "b", "input"), ("int32_t", "c", "input"), ("uint64_t", "r", "local")], "r = (uint32_t)fcirc_add(bundle, RxV, a, b, c);", ["r"])
+        cases = []
+        for k in (0, 1, 3):
+            for length in (4, 8, 0x20, 0x1FFFC, 2):
+                m = (k << 24) | length
+                for cs in (0x1000, 0x20000):
+                    starts = [cs] if (k == 0 and length >= 4) else [cs & ~((1 << (k + 2)) - 1)]
+                    for st in starts:
+                        for rx in sorted({st, st + 1, st + (length // 2), (st + length - 4) & M32, (st + length - 1) & M32, st + length}):
+                            for off in (-length, -4, -1, 0, 1, 4, length - 1, length):
+                                if k != 0 or length < 4:
+                                    if (rx & ~((1 << (k + 2)) - 1) & M32) != st:
+                                        continue
+                                want = _m_fcirc_add(rx & M32, off, m, cs)
+                                cases.append(({"in:a": off & M32, "in:b": m, "in:c": cs, "cur:Rx": rx & M32}, want))
+    else:
+        return (name, 0, [])
+    r = drive.compile_stmt_fresh(comp, spec.text)
+    if r[0] != "ok":
+        return (name, 0, [("rejected", r[1])])
+    cp = prog.Compiled(spec, r[1], env)
+    slots, _states = prog.states_for(spec, cp.ops, 4, EXTRA)
+    names = [s[0] for s in slots]
+    for st, want in cases:
+        unknown = [k for k in st if k not in names]
+        if unknown:
+            raise core.HarnessError("routine model %s: no state slot %s (slots: %s)" % (name, unknown, names))
+        vec = tuple(st.get(nm, 0) for nm in names)
+        try:
+            cobs = cp.run_c(slots, vec)
+        except (ceval.CUndefined, ceval.CUnsupported) as e:
+            continue
+        n += 1
+        got = cobs["locals"]["r"][1] & M64
+        if name == "fcirc_add":
+            rxk = [k for k in cobs["regs"] if k.lower().endswith("x")]
+            got = (got, cobs["regs"].get(rxk[0]) if rxk else None)
+            if got != want:
+                bad.append((st, "returns %#x and leaves Rx = %s, the architectural model gives %#x / %#x" % (got[0], "%#x" % got[1] if got[1] is not None else "unwritten", want[0], want[1])))
+        elif got != (want & M64):
+            bad.append((st, "returns %#x, the architectural model gives %#x" % (got, want & M64)))
+    return (name, n, bad[:5])
+
+
+def routine_models(ctx):
+    names = sorted(ROUTINE_MODELS) + ["conv_round", "fcirc_add"]
+    out = core.pmap(_model_job, names, seed=ctx.seed, chunk=1)
+    total = 0
+    for name, n, bad in out:
+        total += n
+        if n == 0 and not bad:
+            raise core.HarnessError("routine model %s: no comparable state" % name)
+        for st, why in bad:
+            ctx.report({"kind": "routine-model", "routine": name, "state": st if isinstance(st, dict) else str(st), "why": why}, None, what="bundled sub-routine %s: its C text %s (inputs %s)" % (name, why, st))
+    return {"bundled_routines_checked_against_models": len(names), "routine_model_states": total}
